@@ -28,6 +28,9 @@ pub enum Op {
     DiscardNear(u8),
     PushMany(u8),
     TryExtend(u8),
+    /// try_extend with an iterator whose size hint is valid but imprecise:
+    /// (count, lower-bound kind, upper-bound kind), see `Hinted`
+    TryExtendHint(u8, u8, u8),
     SetMax(usize),
     /// set max to size + delta - 2 (around the current size)
     SetMaxNear(u8),
@@ -52,7 +55,8 @@ pub fn op_strategy() -> impl Strategy<Value = Op> {
         2 => prop_oneof![(0usize..12).prop_map(Op::Discard), Just(Op::Discard(usize::MAX)), Just(Op::Discard(usize::MAX - 1))],
         2 => (0u8..5).prop_map(Op::DiscardNear),
         5 => (0u8..7).prop_map(Op::PushMany),
-        5 => (0u8..7).prop_map(Op::TryExtend),
+        3 => (0u8..7).prop_map(Op::TryExtend),
+        4 => (0u8..7, 0u8..3, 0u8..6).prop_map(|(k, lo, hi)| Op::TryExtendHint(k, lo, hi)),
         2 => prop_oneof![(0usize..10).prop_map(Op::SetMax), Just(Op::SetMax(usize::MAX))],
         2 => (0u8..5).prop_map(Op::SetMaxNear),
         1 => Just(Op::Query),
@@ -81,6 +85,35 @@ impl<T> Iterator for Plain<T> {
     type Item = T;
     fn next(&mut self) -> Option<T> {
         self.0.next()
+    }
+}
+
+/// An iterator with a configurable size hint that always honours the `Iterator::size_hint`
+/// contract (lower <= remaining <= upper): lower kind 0 = 0, 1 = half, 2 = exact; upper kind
+/// 0 = None, 1 = exact, 2 = one too many, 3 = four too many (what `filter` reports),
+/// 4 = `usize::MAX`, 5 = twice as many.
+struct Hinted<T>(std::vec::IntoIter<T>, u8, u8);
+impl<T> Iterator for Hinted<T> {
+    type Item = T;
+    fn next(&mut self) -> Option<T> {
+        self.0.next()
+    }
+    fn size_hint(&self) -> (usize, Option<usize>) {
+        let n = self.0.len();
+        let lo = match self.1 {
+            0 => 0,
+            1 => n / 2,
+            _ => n,
+        };
+        let hi = match self.2 {
+            0 => None,
+            1 => Some(n),
+            2 => Some(n + 1),
+            3 => Some(n + 4),
+            4 => Some(usize::MAX),
+            _ => Some(n * 2),
+        };
+        (lo, hi)
     }
 }
 
@@ -118,7 +151,7 @@ pub fn op_name(op: &Op) -> &'static str {
         Op::Top3 => "top3",
         Op::Discard(_) | Op::DiscardNear(_) => "discard",
         Op::PushMany(_) => "push_many",
-        Op::TryExtend(_) => "try_extend",
+        Op::TryExtend(_) | Op::TryExtendHint(..) => "try_extend",
         Op::SetMax(_) | Op::SetMaxNear(_) => "set_max_stack_size",
         Op::Query => "query",
     }
@@ -230,14 +263,14 @@ where
                     (Ret::Unit, Some(m), vec![])
                 }
             }
-            Op::PushMany(k) | Op::TryExtend(k) => {
+            Op::PushMany(k) | Op::TryExtend(k) | Op::TryExtendHint(k, _, _) => {
                 let vs = fresh(usize::from(*k));
                 multi_ops += 1;
                 if vs.is_empty() && n > cap {
                     // DESIGN C04 L: inserting zero elements above the maximum is unconstrained
                     (Ret::UnitOrOver, None, vs)
                 } else if n.checked_add(vs.len()).is_none_or(|t| t > cap) {
-                    if matches!(op, Op::TryExtend(_)) {
+                    if matches!(op, Op::TryExtend(_) | Op::TryExtendHint(..)) {
                         rolled_back_extend = true;
                     }
                     (Ret::Over, None, vs)
@@ -287,6 +320,10 @@ where
             Op::PushMany(_) => conv(real.push_many(pv.clone()), |()| Ret::Unit),
             Op::TryExtend(_) => {
                 let mut it = Plain(pv.clone().into_iter());
+                conv(real.try_extend(&mut it), |()| Ret::Unit)
+            }
+            Op::TryExtendHint(_, lo, hi) => {
+                let mut it = Hinted(pv.clone().into_iter(), *lo, *hi);
                 conv(real.try_extend(&mut it), |()| Ret::Unit)
             }
             Op::SetMax(_) | Op::SetMaxNear(_) => {
